@@ -81,3 +81,25 @@ func moreLiteral(a, b []string) bool {
 	}
 	return false
 }
+
+// TemplateMatches reports whether path (beneath base) fits the template segment for segment, ignoring preference.
+func (rr *RefRouter) TemplateMatches(template, path string) bool {
+	if !strings.HasPrefix(path, rr.Base) {
+		return false
+	}
+	rest := path[len(rr.Base):]
+	if !strings.HasPrefix(rest, "/") {
+		return false
+	}
+	segs := splitSegs(rest)
+	ts := splitSegs(template)
+	if len(ts) != len(segs) {
+		return false
+	}
+	for i, s := range ts {
+		if !isVar(s) && s != segs[i] {
+			return false
+		}
+	}
+	return true
+}
